@@ -34,7 +34,8 @@ SPEC = {'id': 'C17',
          'sequences that fill a queue past queueSize; (3) RedialPacketConn scripts: per carrier write-fails-first / '
          'read-fails-first / read fails during a write, 0-25 redials, ended by a failing dial, Close while dialing, '
          'or Close of a working carrier. non-trivial = more than one operation / every script; distinct = distinct '
-         '(class, case line)',
+         '(class, case line)'
+         ' Script end S = Close while a dial is in flight that then succeeds (predicted by the LTS); bursts of 8 concurrent QueueIncoming / WriteTo calls with 0..4 free slots and no reader (none may block, queue ends full).',
  'level_text': 'All clauses are kernel-checked theorems over three models tied to the source: Go\'s container/heap '
                'transcribed over an abstract heap.Interface (multiset, heap order, minimal root, Remove(i), Fix, '
                'Init; generic index-bookkeeping refinement), clientMapInner as written on top of it (consistency of '
